@@ -3,6 +3,7 @@ from props import _civ
 import cplx_iv_ops as CI
 import iv_fun_ops as IVF
 import iv_cgamma_ops  # noqa  (registers the gamma-family functions of iv.mpc in iv_fun_ops)
+import cplx_iv_pow  # noqa  (registers x ** y of complex rectangles, AFTER the gamma family: earlier random streams unchanged)
 
 LEVEL = "proof"
 LEAN_MODULES = ["Props.C14", "Props.C15", "Props.C14fun", "Props.C15div", "Props.C15abs", "Props.C15pow"]
@@ -27,7 +28,15 @@ ASSUMPTIONS = ["mpci_* arithmetic is modelled bit-exactly in Lean on top of the 
                "re-interval); (C) a pole strictly inside forces the whole plane; plus a STEERED stream for loggamma (corner on a closed-form line "
                "with log|Gamma| 2^-21..2^-100 ulp next to a grid number, chosen with mp, decided as in (B)).  A wrong enclosure that still passes (A)-(C) is not detected; "
                "rectangles without a point with Re z in (1/2)Z are generated but decide nothing",
-               "mpci_pow with non-integer exponents is not covered",
+               "x ** y of complex rectangles (mpci_pow: integer point exponents through mpci_pow_int, every other exponent -- rational "
+               "points, real intervals incl. [lo, 0], [0, hi], [n-eps, n], straddling 0, complex points and rectangles -- through "
+               "exp(y log x); also real interval bases that are not positive, i.e. the ComplexResult fallback of ivmpf.__pow__, the "
+               "reflected and the Python-scalar calling forms) is NOT modelled: harness/cplx_iv_pow.py SAMPLES structured base x exponent "
+               "rectangles (a few hundred per quick run); at sample points z0, w0 an integer exponent |n| <= 1024 is decided EXACTLY with "
+               "Gaussian rationals, every other one through the principal value exp(w0 Log z0) enclosed from the verified real "
+               "enclosures of log, atan, pi, exp, cos, sin (exact dyadic interval arithmetic in Python, cos / sin over the narrow "
+               "argument interval through the Lipschitz bound 1 -- unverified combination step); points on the negative real axis of a "
+               "rectangle that touches it from below are used with integer exponents only (principal value not the inner limit)",
                "mpmath's mp context is used only to steer the generators, never in a decision"]
 
 
@@ -35,4 +44,8 @@ def run(ctx):
     res = _civ.run_civ(ctx, "C15", CI.CI_OPS + ["malformed"], 30000, 1000000)
     res = IVF.merge_into(res, IVF.run_ivfun(ctx, "C15"))
     res["coverage"]["ivfun_cgamma_rule"] = iv_cgamma_ops.RULE
+    res["coverage"]["ivfun_cpow_rule"] = cplx_iv_pow.RULE
     return res
+
+
+import civ_findings4  # noqa: E402,F401  (registers the known-finding predicates of the power family with findings.PREDICATES)
